@@ -46,22 +46,27 @@ type Rec struct {
 }
 
 type Cfg struct {
-	Backend    string
-	Store      vlib.StoreCfg
-	Messages   int
-	Clients    int
-	Phases     int
-	StaleBias  float64  // probability that a settlement presents a non-fresh lease
-	Transports []string // subset of direct, http, grpc
-	Operator   bool     // cancel / requeue by id
+	Backend     string
+	Store       vlib.StoreCfg
+	Messages    int
+	Clients     int
+	Phases      int
+	StaleBias   float64  // probability that a settlement presents a non-fresh lease
+	Transports  []string // subset of direct, http, grpc
+	Operator    bool     // cancel / requeue by id
+	OperatorPct int      // share of operator operations (default 10)
+	BatchPct    int      // share of settlements in batch form (default 30)
+	// OperatorAimsAtLeased: the operator mostly picks messages that were leased
+	// most recently (their holders are about to settle).
+	OperatorAimsAtLeased bool
 	// SecondHandle (SQLite): operator calls go through a second store handle on the
 	// same database file, as `hookaido mcp` works next to a running server.
 	SecondHandle bool
-	DequeuePct int      // share of dequeue operations (default 38)
-	Settle     []Kind   // settlement mix (default: ack x2, nack x2, extend, dead)
-	Label      string
-	Mode       Mode
-	Prop       string
+	DequeuePct   int    // share of dequeue operations (default 38)
+	Settle       []Kind // settlement mix (default: ack x2, nack x2, extend, dead)
+	Label        string
+	Mode         Mode
+	Prop         string
 }
 
 type World struct {
@@ -93,6 +98,12 @@ func NewWorld(c *vlib.Ctx, cfg Cfg) (*World, error) {
 	}
 	if len(cfg.Settle) == 0 {
 		cfg.Settle = []Kind{EvAck, EvAck, EvNack, EvNack, EvExtend, EvDead}
+	}
+	if cfg.OperatorPct == 0 {
+		cfg.OperatorPct = 10
+	}
+	if cfg.BatchPct == 0 {
+		cfg.BatchPct = 30
 	}
 	w := &World{cfg: cfg, c: c, clock: vlib.NewVClock(vlib.Epoch), leaseMsg: map[string]string{}, leaseSet: map[string]int{}}
 	h, err := vlib.OpenStore(cfg.Backend, cfg.Store, w.clock, c.Scratch())
@@ -460,10 +471,10 @@ func (w *World) clientPhase(id int, r *vlib.Rand, held *[]string) {
 					w.anomaly(fmt.Sprintf("lease_until of %s is now+%s, requested ttl %s", it.Msg, time.Duration(it.Until-now), ttl))
 				}
 			}
-		case x < 90: // settle
+		case x < 100-w.cfg.OperatorPct: // settle
 			kind := vlib.Pick(r, w.cfg.Settle)
 			n := 1
-			batchForm := r.Chance(0.3)
+			batchForm := r.Intn(100) < w.cfg.BatchPct
 			if batchForm {
 				n = r.Range(1, 4)
 			}
@@ -541,6 +552,13 @@ func (w *World) clientPhase(id int, r *vlib.Rand, held *[]string) {
 				continue
 			}
 			msg := vlib.Pick(r, w.msgs)
+			if w.cfg.OperatorAimsAtLeased && r.Chance(0.8) {
+				w.mu.Lock()
+				if n := len(w.leases); n > 0 {
+					msg = w.leaseMsg[w.leases[n-1-r.Intn(minI(6, n))]]
+				}
+				w.mu.Unlock()
+			}
 			kind := EvCancel
 			if r.Bool() {
 				kind = EvRequeue
